@@ -1,5 +1,403 @@
-//! C08 harness (stub: not implemented yet).
+//! C08 — a patch is merged only by a threshold of agreeing delegates.
+//!
+//! Each case is a whole patch history (`patch <docs> <heads> <order> <op>…`, syntax in
+//! `lean/HeartwoodModel/Driver/C08.lean`). The harness stores the ops as real change commits of a real
+//! patch COB in a real repository (arbitrary DAG, authors, identity documents, timestamps), sets the
+//! default-branch refs of the actors, evaluates with the real `radicle_cob::get` → `Patch::apply`, and
+//! prints the projected final state plus, per applied entry, whether it was accepted. The facts the
+//! model takes as parameters (`anc` of each merge, evaluation `order`) are computed here by the real
+//! code and written into the case text that goes to `cases.txt`.
+//!
+//! Oracle (property statement on what the real code did): every transition into `Merged{r,c}` has at
+//! least `threshold(doc of that op)` actors whose recorded merge is `(r,c)`, each of them a delegate
+//! (of the document its own op refers to) whose commit is on its default branch (checked with plain
+//! libgit2); a merged patch never changes state by an op without a `Merge` action.
+
+mod inject;
+mod patchrun;
+
+use std::collections::{BTreeMap, BTreeSet};
+
+use inject::*;
+use patchrun::*;
+use radicle::cob::patch::State;
+use verif_common::*;
+
+fn elaborate(w: &mut World, input: &str) -> (String, Outcome) {
+    let Some(mut case) = parse(input) else {
+        return (input.to_string(), Outcome::new("bad-case").trivial().tag("bad-case"));
+    };
+    let run = match run(w, &mut case) {
+        Ok(r) => r,
+        Err(e) => return (input.to_string(), Outcome::new(format!("harness-error:{e}")).trivial().tag("harness-error")),
+    };
+    let text = render(&case);
+    let mut o = Outcome::new(run.output.clone());
+    o.tags = run.tags.clone();
+    oracle(w, &case, &run, &mut o);
+    (text, o)
+}
+
+fn state_key(w: &World, ids: &[radicle::git::Oid], s: &State) -> String {
+    match s {
+        State::Draft => "draft".into(),
+        State::Archived => "archived".into(),
+        State::Open { conflicts } => {
+            if conflicts.is_empty() {
+                "open".into()
+            } else {
+                "conflict".into()
+            }
+        }
+        State::Merged { revision, commit } => format!(
+            "merged:{}:{}",
+            ids.iter().position(|i| i.to_string() == revision.to_string()).map(|k| k.to_string()).unwrap_or("?".into()),
+            w.commit_index(commit).map(|k| k.to_string()).unwrap_or(commit.to_string())
+        ),
+    }
+}
+
+fn oracle(w: &World, case: &PCase, run: &PRun, o: &mut Outcome) {
+    let ids = &run.ids;
+    // Justified merges recorded so far: actor ↦ set of (revision index, commit oid) for which an APPLIED
+    // op by that actor contained the merge, the actor being a delegate of that op's real document and
+    // the commit being on the actor's default branch (independent libgit2 check).
+    let mut recorded: BTreeMap<usize, BTreeSet<(String, radicle::git::Oid)>> = BTreeMap::new();
+    let mut thresholds_seen: Vec<usize> = vec![];
+    let mut note = |op: &POp, recorded: &mut BTreeMap<usize, BTreeSet<(String, radicle::git::Oid)>>| {
+        let Some(d) = op.doc else { return };
+        let is_delegate = doc_delegates(w, &run.docs[d]).contains(&op.author);
+        for a in &op.actions {
+            if let PAct::Merge { rev, commit, .. } = a {
+                let c = w.commit(*commit as usize);
+                if is_delegate && w.on_branch_raw(op.author, c) {
+                    recorded.entry(op.author).or_default().insert((rev.to_string(), c));
+                }
+            }
+        }
+    };
+    if run.init.is_some() {
+        note(&case.ops[0], &mut recorded);
+        if let Some(d) = case.ops[0].doc {
+            thresholds_seen.push(run.docs[d].threshold());
+        }
+    }
+    let mut n_merged_transitions = 0;
+    let mut saw = BTreeSet::new();
+    for s in &run.steps {
+        let op = &case.ops[s.op];
+        let has_merge = op.actions.iter().any(|a| matches!(a, PAct::Merge { .. }));
+        if !s.ok {
+            o.tags.push("op-rejected".into());
+            if s.before != s.after {
+                o.violations.push(("rejected-op-changed-state".into(), format!("op {} was rejected but changed the patch", s.op)));
+            }
+            continue;
+        }
+        note(op, &mut recorded);
+        if let Some(d) = op.doc {
+            thresholds_seen.push(run.docs[d].threshold());
+        }
+        let (b, a) = (s.before.state(), s.after.state());
+        saw.insert(state_key(w, ids, a).split(':').next().unwrap().to_string());
+        if let State::Merged { revision, commit } = a {
+            if b != a {
+                n_merged_transitions += 1;
+                let Some(d) = op.doc else {
+                    o.violations.push(("merged-without-identity".into(), format!("op {} has no identity document", s.op)));
+                    continue;
+                };
+                let threshold = run.docs[d].threshold();
+                let rev_idx = ids.iter().position(|i| i.to_string() == revision.to_string()).map(|k| k.to_string()).unwrap_or("?".into());
+                let mergers: Vec<usize> = merges_of(w, ids, &s.after)
+                    .into_iter()
+                    .filter(|(_, (r, c))| *r == rev_idx && c == commit)
+                    .map(|(a, _)| a)
+                    .collect();
+                if mergers.len() < threshold {
+                    o.violations.push((
+                        "merged-below-threshold".into(),
+                        format!("op {}: merged at ({rev_idx},{commit}) with {} mergers, threshold {threshold}", s.op, mergers.len()),
+                    ));
+                }
+                if mergers.len() == threshold {
+                    o.tags.push("merged-at-exact-threshold".into());
+                }
+                for m in &mergers {
+                    if !recorded.get(m).map(|s| s.contains(&(rev_idx.clone(), *commit))).unwrap_or(false) {
+                        o.violations.push((
+                            "merge-counted-without-delegate-or-ancestry".into(),
+                            format!("op {}: merger {m} counted for ({rev_idx},{commit}) without an applied delegate merge on its default branch", s.op),
+                        ));
+                    }
+                }
+            }
+        }
+        if let State::Merged { .. } = b {
+            if a != b && !has_merge {
+                o.violations.push((
+                    "merged-left-without-merge".into(),
+                    format!("op {} (no merge action) moved a merged patch to {}", s.op, state_key(w, ids, a)),
+                ));
+            }
+            if has_merge && a != b {
+                o.tags.push("merged-changed-by-merge".into());
+            }
+            if op.actions.iter().any(|x| matches!(x, PAct::Lifecycle(_))) {
+                o.tags.push("lifecycle-on-merged".into());
+            }
+        }
+    }
+    // History form: final Merged{r,c} ⇒ some applied op's threshold is reached by distinct justified mergers.
+    if let Some(State::Merged { revision, commit }) = run.last.as_ref().map(|p| p.state().clone()) {
+        let rev_idx = ids.iter().position(|i| i.to_string() == revision.to_string()).map(|k| k.to_string()).unwrap_or("?".into());
+        let n = recorded.values().filter(|s| s.contains(&(rev_idx.clone(), commit))).count();
+        let min_t = thresholds_seen.iter().min().copied().unwrap_or(usize::MAX);
+        if n < min_t {
+            o.violations.push((
+                "merged-unjustified".into(),
+                format!("final state merged at ({rev_idx},{commit}) but only {n} delegates recorded that merge (min threshold {min_t})"),
+            ));
+        }
+        o.tags.push("final-merged".into());
+    } else if let Some(p) = &run.last {
+        o.tags.push(format!("final-{}", state_key(w, ids, p.state())));
+    }
+    for s in saw {
+        o.tags.push(format!("saw-{s}"));
+    }
+    let n_merge_actions: usize =
+        case.ops.iter().flat_map(|o| o.actions.iter()).filter(|a| matches!(a, PAct::Merge { .. })).count();
+    for op in &case.ops {
+        for a in &op.actions {
+            if let PAct::Merge { anc, .. } = a {
+                o.tags.push(format!("anc-{anc}"));
+            }
+        }
+    }
+    if case.docs.len() > 1 {
+        o.tags.push("multi-doc".into());
+    }
+    o.nontrivial = n_merge_actions >= 1 && run.init.is_some();
+    if n_merged_transitions > 0 {
+        o.tags.push("merged-transition".into());
+    }
+    o.tags.sort();
+    o.tags.dedup();
+}
+
+fn gen_case(rng: &mut Rng) -> String {
+    // documents
+    let n_docs = if rng.chance(1, 4) { 2 } else { 1 };
+    let mut docs = vec![];
+    for _ in 0..n_docs {
+        let n = rng.range(1, 4) as usize;
+        let mut ds: Vec<usize> = vec![];
+        while ds.len() < n {
+            let d = rng.below(5) as usize;
+            if !ds.contains(&d) {
+                ds.push(d);
+            }
+        }
+        let t = rng.range(1, n as u64) as usize;
+        docs.push((ds, t));
+    }
+    // default-branch heads: mostly far along the main line (so that ancestry often holds), sometimes a
+    // side commit, an early commit or no ref at all
+    let heads: Vec<Option<usize>> = (0..N_ACTORS)
+        .map(|_| match rng.below(10) {
+            0 => None,
+            1 | 2 => Some(rng.below(N_COMMITS as u64) as usize),
+            3 => Some(2),
+            _ => Some(3),
+        })
+        .collect();
+    // a (revision, commit) pair most merges of this case agree on
+    let popular_commit = rng.below(4);
+    let delegates: Vec<usize> = docs[0].0.clone();
+    let pick_actor = |rng: &mut Rng| -> usize {
+        if rng.chance(5, 6) {
+            *rng.pick(&delegates)
+        } else {
+            rng.below(N_ACTORS as u64) as usize
+        }
+    };
+    let pick_doc = |rng: &mut Rng| -> Option<usize> {
+        if rng.chance(1, 40) {
+            None
+        } else {
+            Some(rng.below(n_docs as u64) as usize)
+        }
+    };
+    let mut ops: Vec<POp> = vec![];
+    let mut ts = 1000 + rng.below(50);
+    let mut root_actions = vec![PAct::Revision(rng.range(1, 9)), PAct::Edit(rng.range(1, 9))];
+    if rng.chance(1, 6) {
+        root_actions.push(PAct::Lifecycle('d'));
+    }
+    ops.push(POp { author: rng.below(N_ACTORS as u64) as usize, doc: pick_doc(rng).or(Some(0)), ts, tips: vec![], actions: root_actions });
+    let mut revisions: Vec<u64> = vec![0];
+    let mut dag_tips: Vec<usize> = vec![0];
+    let n_ops = rng.range(1, 9) as usize;
+    for i in 1..=n_ops {
+        ts = match rng.below(8) {
+            0 | 1 => ts,
+            2 => ts.saturating_sub(rng.below(3)),
+            _ => ts + rng.range(1, 5),
+        };
+        let author = pick_actor(rng);
+        let mut actions = vec![];
+        let n_act = if rng.chance(1, 8) { 2 } else { 1 };
+        for _ in 0..n_act {
+            let a = match rng.below(20) {
+                0..=10 => {
+                    let rev = if rng.chance(1, 25) { FAKE_ID_BASE + rng.below(3) } else { *rng.pick(&revisions) };
+                    let commit = if rng.chance(1, 30) {
+                        7
+                    } else if rng.chance(3, 5) {
+                        popular_commit
+                    } else {
+                        rng.below(N_COMMITS as u64)
+                    };
+                    PAct::Merge { rev, commit, anc: '?' }
+                }
+                11 | 12 => PAct::Revision(rng.range(1, 9)),
+                13 | 14 => PAct::RevisionRedact(*rng.pick(&revisions)),
+                15..=17 => PAct::Lifecycle(*rng.pick(&['o', 'd', 'a'])),
+                18 => PAct::Edit(rng.range(1, 9)),
+                _ => PAct::Label(vec![rng.range(1, 3)]),
+            };
+            actions.push(a);
+        }
+        // tips: mostly the current DAG tips (linear), sometimes an older entry (concurrency)
+        let tips: Vec<usize> = if rng.chance(2, 3) {
+            dag_tips.clone()
+        } else {
+            let mut t = vec![rng.below(i as u64) as usize];
+            if rng.chance(1, 3) {
+                let u = rng.below(i as u64) as usize;
+                if !t.contains(&u) {
+                    t.push(u);
+                }
+            }
+            t.sort();
+            t
+        };
+        for t in &tips {
+            dag_tips.retain(|x| x != t);
+        }
+        dag_tips.push(i);
+        if dag_tips.len() > N_ACTORS - 1 {
+            // keep the number of DAG tips (= refs needed) bounded: join everything
+            let all = dag_tips.clone();
+            dag_tips = vec![i];
+            let mut tips2 = tips.clone();
+            for t in all {
+                if t != i && !tips2.contains(&t) {
+                    tips2.push(t);
+                }
+            }
+            tips2.sort();
+            if actions.iter().any(|a| matches!(a, PAct::Revision(_))) {
+                revisions.push(i as u64);
+            }
+            ops.push(POp { author, doc: pick_doc(rng), ts, tips: tips2, actions });
+            continue;
+        }
+        if actions.iter().any(|a| matches!(a, PAct::Revision(_))) {
+            revisions.push(i as u64);
+        }
+        ops.push(POp { author, doc: pick_doc(rng), ts, tips, actions });
+    }
+    render(&PCase { docs, heads, order: vec![], ops })
+}
+
+/// Exhaustive family: 3 delegates, threshold `t`, two revisions (0 and 1), two commits on every
+/// delegate's branch, every sequence of `len` merges by the delegates (linear history), then an
+/// archive attempt by the author.
+fn exhaustive(t: usize, seq: &[(usize, u64, u64)]) -> String {
+    let mut ops = vec![
+        POp { author: 3, doc: Some(0), ts: 1000, tips: vec![], actions: vec![PAct::Revision(1), PAct::Edit(1)] },
+        POp { author: 3, doc: Some(0), ts: 1001, tips: vec![0], actions: vec![PAct::Revision(2)] },
+    ];
+    for (i, (a, r, c)) in seq.iter().enumerate() {
+        ops.push(POp {
+            author: *a,
+            doc: Some(0),
+            ts: 1002 + i as u64,
+            tips: vec![i + 1],
+            actions: vec![PAct::Merge { rev: *r, commit: *c, anc: '?' }],
+        });
+    }
+    let n = ops.len();
+    ops.push(POp { author: 3, doc: Some(0), ts: 1100, tips: vec![n - 1], actions: vec![PAct::Lifecycle('a')] });
+    render(&PCase {
+        docs: vec![(vec![0, 1, 2], t)],
+        heads: vec![Some(3), Some(3), Some(2), Some(3), None, None],
+        order: vec![],
+        ops,
+    })
+}
+
 fn main() {
-    eprintln!("C08: harness not implemented");
-    std::process::exit(3);
+    let mut ctx = Ctx::from_args("C08");
+    let mut world = World::new();
+    let (fixed, is_replay) = ctx.fixed_inputs();
+    for i in fixed {
+        let (text, o) = elaborate(&mut world, &i);
+        ctx.count("corpus-or-replay");
+        ctx.record(&text, o);
+    }
+    if !is_replay {
+        // exhaustive small family
+        let max_len = ctx.size(2, 3) as usize;
+        let choices: Vec<(usize, u64, u64)> =
+            (0..3usize).flat_map(|a| (0..2u64).flat_map(move |r| [1u64, 2].into_iter().map(move |c| (a, r, c)))).collect();
+        for t in 1..=3usize {
+            for len in 0..=max_len {
+                let mut idx = vec![0usize; len];
+                loop {
+                    let seq: Vec<(usize, u64, u64)> = idx.iter().map(|i| choices[*i]).collect();
+                    let (text, o) = elaborate(&mut world, &exhaustive(t, &seq));
+                    ctx.count("exhaustive-family");
+                    ctx.record(&text, o);
+                    if world.used > 400 {
+                        world = World::new();
+                    }
+                    // next
+                    let mut k = 0;
+                    while k < len {
+                        idx[k] += 1;
+                        if idx[k] < choices.len() {
+                            break;
+                        }
+                        idx[k] = 0;
+                        k += 1;
+                    }
+                    if k == len {
+                        break;
+                    }
+                }
+            }
+        }
+        let mut rng = ctx.rng();
+        for _ in 0..ctx.size(250, 4000) {
+            let input = gen_case(&mut rng);
+            let (text, o) = elaborate(&mut world, &input);
+            ctx.record(&text, o);
+            if world.used > 400 {
+                world = World::new();
+            }
+        }
+    }
+    ctx.finish(
+        "whole patch histories on a real repository: 1-2 identity documents (1-4 delegates, thresholds 1..n), \
+         per-actor default-branch heads over a fixed 6-commit graph, 1-9 ops (merges with agreeing/disagreeing \
+         (revision, commit), non-ancestor / missing commits, redacted and missing revisions, strangers, \
+         lifecycle, new revisions, multi-action ops) in random DAG shapes with equal and decreasing timestamps; \
+         plus the exhaustive family 3 delegates x thresholds 1..3 x merge sequences over 2 revisions x 2 commits \
+         (length <= 2 quick, <= 3 thorough) followed by an archive attempt; non-trivial = the history contains \
+         a merge action and the root is valid; distinct by input text",
+        false,
+    );
 }
